@@ -4,6 +4,7 @@ package main
 // checks, legacy-control probes (C17) and allocation measurements (C18).
 
 import (
+	"encoding/binary"
 	"encoding/hex"
 	"fmt"
 	"os"
@@ -70,6 +71,31 @@ func (c *ctx) cacheHistory(nops int) {
 			}
 		}
 	}
+	// user code failing inside a build (`boom` group: blocks of 3, then of 5): a failed first use, then
+	// the members in random orders, failing and working uses mixed
+	var booms []*universe.UStruct
+	for i := range universe.Structs {
+		if u := &universe.Structs[i]; u.Group == "boom" {
+			booms = append(booms, u)
+		}
+	}
+	if len(booms) >= 3 {
+		c.h.opUseBoom(booms[2], c.cfg())
+		use(booms[2])
+		for round := 0; round < 6; round++ {
+			for _, i := range c.r.Perm(len(booms)) {
+				if c.r.Intn(2) == 0 {
+					g := c.cfg()
+					g.maxLen, g.bigStr, g.minLen = 2, false, 1
+					c.h.opUseBoom(booms[i], g)
+				}
+				if c.r.Intn(3) > 0 {
+					use(booms[i])
+				}
+			}
+		}
+		pool = append(pool, booms...)
+	}
 	for i := 0; i < nops; i++ {
 		var u *universe.UStruct
 		if c.r.Intn(8) == 0 && len(leafs) > 0 {
@@ -121,6 +147,42 @@ func (h *H) opUseVal(u *universe.UStruct, g *genCfg) {
 	pf, _ := freflect.VerifCacheSizes()
 	h.emit(fmt.Sprintf("%s -> %s pf=%d", line, res, pf))
 	h.stats["use"]++
+}
+
+// opUseBoom: a use of the type while the marked InitDefault methods of the `boom` group panic: user
+// code that fails inside a descriptor build (the build calls InitDefault to read the declared
+// defaults).  EncodedSize only: encode and size call no user code once the descriptor exists, so the
+// call panics exactly when the build has to resolve a marked struct.  The state machine treats it as
+// a failed use: nothing of it may stay behind (D21).
+func (h *H) opUseBoom(u *universe.UStruct, g *genCfg) {
+	line := fmt.Sprintf("useboom %d", u.Sid)
+	h.mark(line)
+	p := reflect.New(u.Type)
+	if g != nil {
+		func() {
+			defer func() { recover() }()
+			g.h = h
+			g.gen(p.Elem())
+		}()
+	}
+	universe.Boom.Store(true)
+	res := func() (res string) {
+		defer func() {
+			if r := recover(); r != nil {
+				if s, ok := r.(string); ok && s == "universe: defaults not ready" {
+					res = "panic:user"
+				} else {
+					res = panicClass(r)
+				}
+			}
+		}()
+		frugal.EncodedSize(p.Interface())
+		return "ok"
+	}()
+	universe.Boom.Store(false)
+	pf, _ := freflect.VerifCacheSizes()
+	h.emit(fmt.Sprintf("%s -> %s pf=%d", line, res, pf))
+	h.stats["useboom"]++
 }
 
 func (c *ctx) spanOps(nseq int) {
@@ -340,6 +402,50 @@ func (c *ctx) bigLenProbe() {
 	c.h.stats["biglen"]++
 	if res != "err" {
 		c.h.oracle("C04", "a list of 2^32+1 elements (length beyond int32) was encoded without an error: "+res)
+	}
+}
+
+type argAmp struct {
+	ID       int64             `frugal:"1,default,i64"`
+	Name     string            `frugal:"2,default,string"`
+	Tags     []string          `frugal:"3,default,list<string>"`
+	Attrs    map[string]string `frugal:"4,default,map<string:string>"`
+	Children []argAmp          `frugal:"5,default,list<argAmp>"`
+}
+
+// ampProbe (D22): nested list headers of a recursive type, each with a count equal to the number of
+// bytes left: every level passes the plausibility check `count <= remaining/minWireSize` against the
+// whole rest of the input and allocates count*sizeof(element) before decoding anything, so the
+// total is (nesting depth) x sizeof(element) x len(input), where a well-formed message of that length
+// can never hold more than len(input) elements altogether.
+func (c *ctx) ampProbe() {
+	const levels, pad = 300, 4096
+	total := levels*8 + pad
+	in := make([]byte, 0, total)
+	for i := 0; i < levels; i++ {
+		in = append(in, tLIST, 0, 5, tSTRUCT)
+		in = binary.BigEndian.AppendUint32(in, uint32(total-len(in)-4))
+	}
+	in = append(in, make([]byte, pad)...)
+	var ms0, ms1 runtime.MemStats
+	runtime.GC()
+	runtime.ReadMemStats(&ms0)
+	res := safely(func() string {
+		if _, err := frugal.DecodeObject(in, &argAmp{}); err != nil {
+			return "err"
+		}
+		return "ok"
+	})
+	runtime.ReadMemStats(&ms1)
+	runtime.GC()
+	c.h.stats["ampprobe"]++
+	d := ms1.TotalAlloc - ms0.TotalAlloc
+	if res != "err" {
+		c.h.oracle("C05", "ampProbe: malformed nested counts gave "+res)
+	}
+	// no well-formed message of len(in) bytes needs more than len(in) elements of 80 bytes
+	if d > uint64(len(in))*80*8 {
+		c.h.oracle("C05", fmt.Sprintf("nested counts each claiming the rest of the input: decode of %d malformed bytes (%d nested list<struct> headers, count = bytes left) allocated %d bytes = %d x the input", len(in), levels, d, d/uint64(len(in))))
 	}
 }
 
